@@ -8,6 +8,7 @@ import (
 	"sort"
 	"strconv"
 	"testing"
+	"time"
 
 	"pgregory.net/rapid"
 
@@ -46,6 +47,7 @@ func TestMain(m *testing.M) {
 		}
 	}
 	code := m.Run()
+	minimizeViolations()
 	stat.Flush()
 	os.Exit(code)
 }
@@ -139,6 +141,133 @@ func TestReplayOne(t *testing.T) {
 		t.Fatalf("harness: %v", err)
 	}
 	fmt.Println("replay passed")
+}
+
+// ---------------------------------------------------------------- failure minimisation
+//
+// rapid shrinks its draw stream; op lists generated with a shadow model shrink
+// poorly that way, so every remembered violation is additionally minimised at
+// the case level: elements of operation arrays are deleted (ddmin) as long as
+// the same oracle still reports the same signature.
+
+type capFail struct{}
+type capTB struct{}
+
+func (capTB) Fatalf(string, ...any) { panic(capFail{}) }
+func (capTB) Logf(string, ...any)   {}
+
+func trySignature(check string, raw json.RawMessage) string {
+	fn := registry[check]
+	if fn == nil {
+		return ""
+	}
+	stat.ClearViolation(check)
+	func() {
+		defer func() {
+			if r := recover(); r != nil {
+				if _, ok := r.(capFail); !ok {
+					// a crash while minimising is not the same failure
+					stat.ClearViolation(check)
+				}
+			}
+		}()
+		fn(capTB{}, raw)
+	}()
+	if v := stat.LastViolation(check); v != nil {
+		return v.Signature
+	}
+	return ""
+}
+
+var opArrayKeys = map[string]bool{"ops": true, "events": true, "steps": true, "actions": true, "calls": true, "prefix": true, "records": true, "configs": true}
+
+// arrays finds op arrays inside a decoded JSON document.
+func findArrays(doc any, path []string, out *[][]string) {
+	switch v := doc.(type) {
+	case map[string]any:
+		for k, x := range v {
+			p := append(append([]string{}, path...), k)
+			if arr, ok := x.([]any); ok && opArrayKeys[k] && len(arr) >= 2 {
+				*out = append(*out, p)
+			}
+			findArrays(x, p, out)
+		}
+	}
+}
+
+func getArr(doc any, path []string) []any {
+	cur := doc
+	for _, k := range path {
+		m, ok := cur.(map[string]any)
+		if !ok {
+			return nil
+		}
+		cur = m[k]
+	}
+	a, _ := cur.([]any)
+	return a
+}
+
+func setArr(doc any, path []string, a []any) {
+	cur := doc
+	for _, k := range path[:len(path)-1] {
+		cur = cur.(map[string]any)[k]
+	}
+	cur.(map[string]any)[path[len(path)-1]] = a
+}
+
+func minimizeViolations() {
+	if os.Getenv("VERIF_NOMINIMIZE") != "" {
+		return
+	}
+	stat.Pause(true)
+	defer stat.Pause(false)
+	for _, check := range stat.ViolatedChecks() {
+		best := stat.LastViolation(check)
+		if best == nil || registry[check] == nil {
+			continue
+		}
+		deadline := time.Now().Add(25 * time.Second)
+		// confirm reproducibility first
+		if trySignature(check, best.Case) != best.Signature {
+			stat.SetViolation(check, best)
+			continue
+		}
+		var doc any
+		if json.Unmarshal(best.Case, &doc) != nil {
+			stat.SetViolation(check, best)
+			continue
+		}
+		progress := true
+		for progress && time.Now().Before(deadline) {
+			progress = false
+			var paths [][]string
+			findArrays(doc, nil, &paths)
+			sort.Slice(paths, func(i, j int) bool { return fmt.Sprint(paths[i]) < fmt.Sprint(paths[j]) })
+			for _, p := range paths {
+				arr := getArr(doc, p)
+				minLen := 1
+				for chunk := len(arr) / 2; chunk >= 1 && time.Now().Before(deadline); chunk /= 2 {
+					for i := 0; i+chunk <= len(arr) && len(arr)-chunk >= minLen && time.Now().Before(deadline); {
+						cand := append(append([]any{}, arr[:i]...), arr[i+chunk:]...)
+						setArr(doc, p, cand)
+						raw, _ := json.Marshal(doc)
+						if trySignature(check, raw) == best.Signature {
+							arr = cand
+							nv := stat.LastViolation(check)
+							best = nv
+							progress = true
+						} else {
+							setArr(doc, p, arr)
+							i += chunk
+						}
+					}
+				}
+				setArr(doc, p, arr)
+			}
+		}
+		stat.SetViolation(check, best)
+	}
 }
 
 // pick is a tiny helper for weighted generator choices.
